@@ -33,3 +33,29 @@ def register(claim, na):
           "All descriptions within (N, k) - the space contains every pair one small structural edit apart because it contains everything - are "
           "identified by the real code; any two descriptions sharing an identifier must have the same canonical signature.",
           G_NOTE + " Domain as in the statement: no control characters, dicts nested <= 2 levels.", "DESIGN.md 3/C03")
+
+    claim("C12", "G", "exploration",
+          "bounded-exhaustive enumeration of configuration graphs x serialisation routes, reloaded graph compared by canonical relabelling",
+          "Every description within (N,k) is built, sealed/submitted, written and read back through every route (objects list of params.json in "
+          "configuration and instance mode, state_dict/from_state_dict, save/load); the reloaded real objects are walked into a description that must "
+          "be isomorphic to the original (classes, every parameter incl. ignored ones, sharing, cycles, meta flags, pre/init task lists, producing "
+          "task of outputs) and the recomputed identifier must equal the original. Two real GENERATE_ONLY job directories are read by the real "
+          "run() and the task body's view (values, sharing, tags, pre/init/body order) compared with what was configured.",
+          G_NOTE, "DESIGN.md 3/C12")
+    claim("C13", "G", "exploration",
+          "bounded-exhaustive enumeration of configuration graphs (sharing, cycles, pre/init tasks anywhere) x {instance(), fromParameters}",
+          "Instrumented universe classes log __post_init__ (with which parameters are readable) and execute; for every description and both routes: "
+          "runtime object graph isomorphic to the description, one object per configuration, __post_init__ once per object after its parameters, "
+          "each pre-task executed once, init tasks once, in order, after the pre-tasks.",
+          G_NOTE, "DESIGN.md 3/C13")
+    claim("C14", "G", "exploration",
+          "bounded-exhaustive enumeration of configuration graphs x {seal, submit} x every node x every mutation attempt",
+          "After seal() or a DRY_RUN submit, every assignment of a type-correct value to every parameter of every reachable node (through lists, dicts, "
+          "task outputs, pre/init tasks, cycles), set_meta and add_pretasks must raise; identifiers of all nodes and the job directory are re-read after "
+          "every attempt and must not move.",
+          G_NOTE, "DESIGN.md 3/C14")
+    claim("C17", "G", "exploration",
+          "bounded-exhaustive enumeration of task graphs with generated-path parameters at every position, submitted twice",
+          "All generated paths of every description must lie inside the job directory, be pairwise distinct across (object, parameter) pairs, and be "
+          "identical (relative to the job directory) when an equal fresh graph is submitted again.",
+          G_NOTE, "DESIGN.md 3/C17")
